@@ -14,6 +14,7 @@ import (
 	"encoding/binary"
 	"fmt"
 	"syscall"
+	"time"
 
 	"github.com/superfly/litefs/verif/mount"
 	"github.com/superfly/litefs/verif/ref"
@@ -97,6 +98,10 @@ type Conn struct {
 	readSlot int // WAL: 0..4 = READ lock slot held, -1 none
 	Trace    []string
 	TraceOn  bool
+
+	// BusyTimeout is how long a lock upgrade that hits SQLITE_BUSY is retried
+	// (sqlite3_busy_timeout). Zero means two seconds.
+	BusyTimeout time.Duration
 
 	// HotJournalSeen is set when the connection found a journal that SQLite
 	// would have treated as hot at the start of a transaction.
@@ -237,6 +242,22 @@ func (c *Conn) Lock(level int) error {
 		c.level = LockExclusive
 	}
 	return nil
+}
+
+// LockBusy is Lock with the busy handler: ErrBusy is retried until BusyTimeout.
+func (c *Conn) LockBusy(level int) error {
+	d := c.BusyTimeout
+	if d == 0 {
+		d = 2 * time.Second
+	}
+	deadline := time.Now().Add(d)
+	for {
+		err := c.Lock(level)
+		if err != ErrBusy || time.Now().After(deadline) {
+			return err
+		}
+		time.Sleep(50 * time.Microsecond)
+	}
 }
 
 // Unlock lowers the lock level to LockShared or LockNone.
@@ -509,6 +530,7 @@ func (c *Conn) ExecRollbackTx(tx Tx) (res TxResult, err error) {
 	}
 
 	var modified []uint32
+	busyAbort := false // a lock upgrade stayed busy: the application gives up and rolls back
 	for i, p := range order {
 		// Journal the original content of pages that existed before.
 		if p <= origSize && !journalled[p] {
@@ -538,7 +560,10 @@ func (c *Conn) ExecRollbackTx(tx Tx) (res TxResult, err error) {
 
 		// Cache spill: not for page 1 (bumped at commit) and not after the last modification.
 		if tx.SpillAfter > 0 && p != 1 && (i+1)%tx.SpillAfter == 0 && i+1 < len(order)-1 {
-			if err = c.Lock(LockExclusive); err != nil {
+			if err = c.LockBusy(LockExclusive); err == ErrBusy {
+				busyAbort = true
+				break
+			} else if err != nil {
 				return res, err
 			}
 			if err = syncJournal(); err != nil {
@@ -596,7 +621,14 @@ func (c *Conn) ExecRollbackTx(tx Tx) (res TxResult, err error) {
 		return nil
 	}
 
-	if tx.Rollback {
+	if !tx.Rollback && !busyAbort {
+		if err = c.LockBusy(LockExclusive); err == ErrBusy {
+			busyAbort = true
+		} else if err != nil {
+			return res, err
+		}
+	}
+	if tx.Rollback || busyAbort {
 		res.RolledBack = true
 		if dbModified {
 			// pager_playback: truncate to the original size, write back every
@@ -629,13 +661,13 @@ func (c *Conn) ExecRollbackTx(tx Tx) (res TxResult, err error) {
 		if err = finalise(); err != nil {
 			return res, err
 		}
+		if busyAbort {
+			return res, ErrBusy
+		}
 		return res, nil
 	}
 
-	// COMMIT
-	if err = c.Lock(LockExclusive); err != nil {
-		return res, err
-	}
+	// COMMIT (EXCLUSIVE is held)
 	if err = syncJournal(); err != nil {
 		return res, err
 	}
